@@ -4,7 +4,7 @@ held as the Go code holds it — a vector of named cells, one per variable of th
 allocated full of nulls at the call and accessed BY INDEX — instead of ImplSem's name-indexed map.
 Only the frame operations differ; re-run after editing Model.v (builder C)."""
 import re, os
-here = os.path.dirname(os.path.dirname(os.path.abspath(__file__)))
+here = os.environ.get("SLOTGEN_ROOT") or os.path.dirname(os.path.dirname(os.path.abspath(__file__)))
 src = open(os.path.join(here, "coq/C02/Model.v")).read()
 body = src[src.index("(* ---------- expressions (structural; calls go through [callf]) ---------- *)"):]
 # drop the definitions shared with Model.v
